@@ -1,6 +1,8 @@
 import Vanguard.Model.Run
 import Vanguard.Spec.Progress
 import Vanguard.Props.C11
+import Vanguard.Lemmas.Frame
+import Vanguard.Lemmas.ReadReach
 /-!
   # C16 — streaming RPCs make progress message by message
 
@@ -31,14 +33,24 @@ import Vanguard.Props.C11
     backend output, split anywhere, errors included.  So a complete response message is on the wire
     when the `Write` call that completed it returns.
 
-  NOT proved (partial): the same for whole runs - "after every backend write all completed
-  messages are flushed" and "delivering message k consumes at most k client messages" as
-  invariants of `runScript`.  For whole runs these are the executable predicates
-  `Spec.respStepOk` / `Spec.reqStepOk`, evaluated on the progress logs of the implementation for
-  every scenario (and the model's logs are compared with the implementation's, flush offsets
-  included), plus a lock-step client in the harness that reports the first `Read` which would
-  block for ever.  A real HTTP/2 connection (flow control, the net/http server's own buffering)
-  is outside the model.
+  * **whole runs, response direction** (`runScript_prog`, `nothing_complete_is_held_back`,
+    `serve_handler_makes_progress`): `ProgInv` is an invariant of every handler script - any sequence of
+    reads of any size, header changes, `WriteHeader`, `Write` calls with any bytes split anywhere,
+    `Flush`, `Close`, stopped at any point - from the state `ServeHTTP` hands to the handler.  So while
+    the RPC is open and the client's protocol streams, after *every* call of the handler everything
+    written on the re-encoding path is flushed, and on the re-framing path everything is flushed
+    whenever the writer is between messages.  The proof goes through frame lemmas for every writer
+    function (`Lemmas/Frame.lean`) and the closure of what the request readers can do to the request
+    state (`Lemmas/ReadReach.lean`).
+
+  NOT proved (partial): the request direction for whole runs - "delivering message k consumes at
+  most k client messages" as an invariant of `runScript` (per `Read` call it is `trRead_no_lookahead`,
+  `erRead_envelope_no_pull`, `limited_never_exceeds`).  For whole runs it is the executable predicate
+  `Spec.reqStepOk` (and `Spec.respStepOk` for the response direction, now also a theorem of the model),
+  evaluated on the progress logs of the implementation for every scenario (and the model's logs are
+  compared with the implementation's, flush offsets included), plus a lock-step client in the harness
+  that reports the first `Read` which would block for ever.  A real HTTP/2 connection (flow control,
+  the net/http server's own buffering) is outside the model.
 -/
 namespace Vanguard.C16
 open Vanguard
@@ -496,6 +508,469 @@ theorem ewWrite_flushed_at_boundaries (w : World) (tb : Tables) (st : St) (e : E
 /-- The claim is not vacuous: it holds when the backend starts writing (nothing written, nothing
     flushed), and it fails for a state with an unflushed item. -/
 example (st : St) (h : st.sink = {}) : AllFlushed st := by intro _; simp [h]
+
+/-! ### whole runs: nothing complete is held back, after every call of every handler -/
+
+def Flushed (st : St) : Prop := st.sink.flushedN.getD 0 = st.sink.items.length
+
+/-- The re-framing writer: flushed between messages; a writer that was never used sits on a response
+    of which nothing is unflushed. -/
+def EwOk (st : St) (e : EW) : Prop :=
+  FlushedAtBoundary st e ∧ (e.initialized = false → AllFlushed st ∧ e.writingEnvelope = false)
+
+/-- "Nothing complete is held back" in a state of the response writer. -/
+def Prog (st : St) : Prop :=
+  match st.rw.w with
+  | .enveloping e => EwOk st e
+  | _ => AllFlushed st
+
+/-- The invariant of a run: before `WriteHeader` nothing is buffered and no body writer exists; while
+    the RPC is open nothing complete is held back. -/
+structure ProgInv (st : St) : Prop where
+  fresh : st.rw.headersWritten = false → st.rw.buf = none ∧ st.rw.w = .unset
+  prog : st.rw.endWritten = false → Prog st
+
+theorem Prog.of_flushed {st' st : St} (hwk : st'.rw.w = st.rw.w) (hf : Flushed st') (hP : Prog st) : Prog st' := by
+  unfold Prog at *
+  rw [hwk]
+  cases hw : st.rw.w with
+  | enveloping e =>
+    simp only [hw] at hP ⊢
+    exact ⟨fun _ _ => hf, fun hi => ⟨fun _ => hf, (hP.2 hi).2⟩⟩
+  | unset => exact fun _ => hf
+  | transforming t => exact fun _ => hf
+  | errorWriter b k => exact fun _ => hf
+  | noBody => exact fun _ => hf
+
+/-- Steps that leave the body, the flush mark and the writer alone. -/
+structure SameOut (a b : St) : Prop where
+  items : b.sink.items = a.sink.items
+  fl : b.sink.flushedN = a.sink.flushedN
+  wk : b.rw.w = a.rw.w
+  buf : b.rw.buf = a.rw.buf
+  ended : b.rw.endWritten = a.rw.endWritten
+  hw : b.rw.headersWritten = a.rw.headersWritten
+
+theorem AllFlushed.of_same {a b : St} (s : SameOut a b) (h : AllFlushed a) : AllFlushed b := by
+  unfold AllFlushed at *
+  rw [s.items, s.fl, s.buf]; exact h
+
+theorem Prog.of_same {a b : St} (s : SameOut a b) (h : Prog a) : Prog b := by
+  unfold Prog at *
+  rw [s.wk]
+  cases hw : a.rw.w with
+  | enveloping e =>
+    simp only [hw] at h ⊢
+    refine ⟨?_, fun hi => ⟨AllFlushed.of_same s (h.2 hi).1, (h.2 hi).2⟩⟩
+    unfold FlushedAtBoundary
+    rw [s.items, s.fl, s.buf]; exact h.1
+  | unset => simp only [hw] at h ⊢; exact AllFlushed.of_same s h
+  | transforming t => simp only [hw] at h ⊢; exact AllFlushed.of_same s h
+  | errorWriter b k => simp only [hw] at h ⊢; exact AllFlushed.of_same s h
+  | noBody => simp only [hw] at h ⊢; exact AllFlushed.of_same s h
+
+theorem ProgInv.of_same {a b : St} (s : SameOut a b) (h : ProgInv a) : ProgInv b :=
+  ⟨fun hh => by rw [s.buf, s.wk]; exact h.fresh (by rw [← s.hw]; exact hh),
+   fun ho => Prog.of_same s (h.prog (by rw [← s.ended]; exact ho))⟩
+
+theorem setHdr_same (st : St) (h : Hdr) : SameOut st (st.setHdr h) := by
+  unfold St.setHdr
+  split <;> exact ⟨rfl, rfl, rfl, rfl, rfl, rfl⟩
+
+theorem reportEnd_flushed (w : World) (st : St) (e : RespEnd) (h : st.rw.endWritten = false) :
+    Flushed (reportEnd w st e).1 := by
+  unfold reportEnd
+  simp only [h, Bool.false_eq_true, if_false]
+  simp [Flushed, Sink.flush]
+
+theorem reportError_flushed (w : World) (st : St) (err : Err) (h : st.rw.endWritten = false) :
+    (reportError w st err).1 = st ∨ Flushed (reportError w st err).1 := by
+  unfold reportError
+  split
+  · split
+    · exact Or.inl rfl
+    · exact Or.inr (reportEnd_flushed w st _ h)
+  · exact Or.inr (reportEnd_flushed w st _ h)
+
+/-- Reporting an error keeps the invariant. -/
+theorem reportError_prog (w : World) (st : St) (err : Err) (h : ProgInv st) : ProgInv (reportError w st err).1 := by
+  have hf := reportError_hw w st err
+  refine ⟨fun hh => ?_, fun ho => ?_⟩
+  · have := h.fresh (by rw [← hf.hw]; exact hh)
+    exact ⟨hf.buf this.1, by rw [hf.wk]; exact this.2⟩
+  · have hopen : st.rw.endWritten = false := by
+      cases hb : st.rw.endWritten with
+      | false => rfl
+      | true => rw [hf.ended hb] at ho; cases ho
+    rcases reportError_flushed w st err hopen with heq | hfl
+    · rw [heq]; exact h.prog hopen
+    · exact Prog.of_flushed hf.wk hfl (h.prog hopen)
+
+/-- **Whatever a `Read` of the handler does** - any size, any body, errors included - keeps it. -/
+theorem reach_prog {w : World} {a b : St} (r : RdReach w a b) (h : ProgInv a) : ProgInv b := by
+  induction r with
+  | refl => exact h
+  | @src b' _ s ih => exact ProgInv.of_same (a := b') ⟨rfl, rfl, rfl, rfl, rfl, rfl⟩ ih
+  | err _ e ih => exact reportError_prog w _ e ih
+
+/-! #### `WriteHeader` -/
+
+theorem addResponseHeaders_flushedN (c : ClientForm) (rm : RespMeta) (k : Sink) :
+    (addResponseHeaders c rm k).2.flushedN = k.flushedN := by
+  unfold addResponseHeaders
+  cases c <;> simp only
+  case grpc => cases he : rm.end <;> simp [writeEndToHeaders]
+  case grpcWeb => cases he : rm.end <;> simp [writeEndToHeaders]
+
+theorem writeHeader_same (k : Sink) (c : Nat) : (k.writeHeader c).items = k.items ∧ (k.writeHeader c).flushedN = k.flushedN := by
+  unfold Sink.writeHeader; split <;> exact ⟨rfl, rfl⟩
+
+/-- Flushing the head of a response that is not being buffered: either the RPC ends with it, or
+    nothing is added to the body. -/
+theorem flushHeaders_open (w : World) (st : St) (hb : st.rw.buf = none) (haf : AllFlushed st) :
+    (flushHeaders w st).1.rw.endWritten = false → AllFlushed (flushHeaders w st).1 := by
+  unfold flushHeaders
+  split
+  · exact fun _ => haf
+  · simp only
+    have hi := fun cli => (addResponseHeaders_items st.op.cform cli st.sink).1
+    have hn := fun cli => addResponseHeaders_flushedN st.op.cform cli st.sink
+    generalize hr : addResponseHeaders st.op.cform _ st.sink = r
+    have hi' : r.2.items = st.sink.items := by rw [← hr]; exact hi _
+    have hn' : r.2.flushedN = st.sink.flushedN := by rw [← hr]; exact hn _
+    obtain ⟨status, k⟩ := r
+    simp only at hi' hn' ⊢
+    split
+    · exact fun _ => haf
+    · rename_i code
+      split
+      · intro h; simp [writeEnd] at h
+      · intro _ _
+        simp only [hb]
+        rw [(writeHeader_same k code).1, (writeHeader_same k code).2, hi', hn']
+        exact haf hb
+
+theorem flushHeaders_hw' (w : World) (st : St) : (flushHeaders w st).1.rw.headersWritten = st.rw.headersWritten :=
+  (flushHeaders_hw w st).hw
+
+theorem setHdr_hw (st : St) (h : Hdr) : (st.setHdr h).rw = st.rw := by
+  unfold St.setHdr; split <;> rfl
+
+theorem SameOut.refl (a : St) : SameOut a a := ⟨rfl, rfl, rfl, rfl, rfl, rfl⟩
+theorem SameOut.trans {a b c : St} (h1 : SameOut a b) (h2 : SameOut b c) : SameOut a c :=
+  ⟨h2.items.trans h1.items, h2.fl.trans h1.fl, h2.wk.trans h1.wk, h2.buf.trans h1.buf, h2.ended.trans h1.ended, h2.hw.trans h1.hw⟩
+theorem SameOut.ite {a x y : St} (c : Prop) [Decidable c] (hx : SameOut a x) (hy : SameOut a y) : SameOut a (if c then x else y) := by
+  split <;> assumption
+theorem SameOut.rwUpdate (a : St) (r : RW) (h1 : r.w = a.rw.w) (h2 : r.buf = a.rw.buf) (h3 : r.endWritten = a.rw.endWritten)
+    (h4 : r.headersWritten = a.rw.headersWritten) : SameOut a { a with rw := r } := ⟨rfl, rfl, h1, h2, h3, h4⟩
+
+theorem rwPrepareMeta_same (tb : Tables) (st : St) (status : Nat) (cl : Int) (clText : Bytes) :
+    SameOut st (rwPrepareMeta tb st status cl clText).1 := by
+  unfold rwPrepareMeta
+  refine SameOut.trans ?_ (SameOut.rwUpdate _ _ rfl rfl rfl rfl)
+  refine SameOut.trans ?_ (setHdr_same _ _)
+  refine SameOut.ite _ ?_ (SameOut.trans ?_ (setHdr_same _ _)) <;>
+  · refine SameOut.trans ?_ (setHdr_same _ _)
+    refine SameOut.trans ?_ (SameOut.rwUpdate _ _ rfl rfl rfl rfl)
+    exact SameOut.ite _ (SameOut.refl st) (setHdr_same _ _)
+
+
+theorem Prog.setWriter_fresh (st : St) (haf : AllFlushed st) : Prog (rwSetWriter st (.enveloping {})) := by
+  unfold Prog rwSetWriter
+  exact ⟨boundary_vacuous _ _ rfl, fun _ => ⟨haf, rfl⟩⟩
+
+theorem Prog.setWriter_transforming (st : St) (t : TW) (haf : AllFlushed st) : Prog (rwSetWriter st (.transforming t)) := by
+  unfold Prog rwSetWriter; exact haf
+theorem Prog.setWriter_errorWriter (st : St) (b : Option Bytes) (k : EndBody) (haf : AllFlushed st) :
+    Prog (rwSetWriter st (.errorWriter b k)) := by
+  unfold Prog rwSetWriter; exact haf
+theorem Prog.setWriter_noBody (st : St) (haf : AllFlushed st) : Prog (rwSetWriter st .noBody) := by
+  unfold Prog rwSetWriter; exact haf
+
+theorem Prog.setWriter_new (st : St) (c : Bool) (haf : AllFlushed st) :
+    Prog (rwSetWriter st (if c then .enveloping {} else .transforming {})) := by
+  cases c
+  · exact Prog.setWriter_transforming _ _ haf
+  · exact Prog.setWriter_fresh _ haf
+
+theorem rwStartBody_prog (w : World) (st : St) (hb : st.rw.buf = none) (haf : AllFlushed st) :
+    (rwStartBody w st).1.rw.endWritten = false → Prog (rwStartBody w st).1 := by
+  unfold rwStartBody
+  simp only
+  intro ho
+  have key : AllFlushed (if st.op.cform.endMustBeInHeaders = true then
+        (({ st with rw := { st.rw with sameRespCodec := st.op.ccodec == st.op.scodec, buf := some [] } } : St), false)
+      else flushHeaders w { st with rw := { st.rw with sameRespCodec := st.op.ccodec == st.op.scodec } }).1 := by
+    split
+    · intro hbn; simp at hbn
+    · rename_i hne
+      simp only [hne, Bool.false_eq_true, if_false] at ho
+      exact flushHeaders_open w _ hb haf ho
+  exact Prog.setWriter_new _ _ key
+
+theorem rwSetRespComp_same (st : St) (comp : Bytes) : SameOut st (rwSetRespComp st comp) := by
+  unfold rwSetRespComp
+  exact SameOut.ite _ (SameOut.refl st) (SameOut.rwUpdate st _ rfl rfl rfl rfl)
+
+theorem rwChooseWriter_hw (w : World) (st : St) (rm : RespMeta) (eb : EndBody) :
+    (rwChooseWriter w st rm eb).1.rw.headersWritten = st.rw.headersWritten := by
+  unfold rwChooseWriter
+  generalize (if rm.compression == identityName then [] else rm.compression) = comp
+  simp only
+  have hs := (rwSetRespComp_same st comp).hw
+  split
+  · exact (reportError_hw w st _).hw
+  · split
+    · split
+      · exact hs
+      · exact ((flushHeaders_hw w _).hw).trans hs
+    · split
+      · exact ((reportError_hw w _ _).hw).trans hs
+      · unfold rwStartBody rwSetWriter
+        simp only
+        split
+        · exact hs
+        · exact ((flushHeaders_hw w _).hw).trans hs
+
+theorem rwChooseWriter_prog (w : World) (st : St) (rm : RespMeta) (eb : EndBody) (h : ProgInv st)
+    (hb : st.rw.buf = none) (hu : st.rw.w = .unset) (hopen : st.rw.endWritten = false) :
+    (rwChooseWriter w st rm eb).1.rw.endWritten = false → Prog (rwChooseWriter w st rm eb).1 := by
+  have haf : AllFlushed st := by
+    have := h.prog hopen
+    unfold Prog at this; rw [hu] at this; exact this
+  unfold rwChooseWriter
+  generalize (if rm.compression == identityName then [] else rm.compression) = comp
+  simp only
+  have hs := rwSetRespComp_same st comp
+  have haf1 : AllFlushed (rwSetRespComp st comp) := AllFlushed.of_same hs haf
+  have hb1 : (rwSetRespComp st comp).rw.buf = none := by rw [hs.buf]; exact hb
+  split
+  · exact (reportError_prog w st _ h).prog
+  · split
+    · split
+      · exact fun _ => Prog.setWriter_errorWriter _ _ _ haf1
+      · intro ho
+        exact Prog.setWriter_noBody _ (flushHeaders_open w _ hb1 haf1 ho)
+    · split
+      · exact (reportError_prog w _ _ (ProgInv.of_same hs h)).prog
+      · exact rwStartBody_prog w _ hb1 haf1
+
+
+theorem rwWriteHeader_written (w : World) (tb : Tables) (st : St) (c : Nat) :
+    (rwWriteHeader w tb st c).1.rw.headersWritten = true := by
+  unfold rwWriteHeader
+  split
+  · assumption
+  · simp only
+    split
+    · rfl
+    · split
+      · exact (reportError_hw w _ _).hw
+      · rename_i cl _
+        have h1 := fun t => (rwPrepareMeta_same tb ({ st with rw := { st.rw with headersWritten := true, statusCode := c } } : St) c cl t).hw
+        generalize hr : rwPrepareMeta tb _ c cl _ = r
+        have h1' : r.1.rw.headersWritten = true := by rw [← hr]; exact h1 _
+        obtain ⟨s5, rm, eb⟩ := r
+        simp only at h1' ⊢
+        exact (rwChooseWriter_hw w s5 rm eb).trans h1'
+
+/-- **`WriteHeader` keeps the invariant.** -/
+theorem rwWriteHeader_prog (w : World) (tb : Tables) (st : St) (c : Nat) (h : ProgInv st) :
+    ProgInv (rwWriteHeader w tb st c).1 := by
+  refine ⟨fun hh => ?_, ?_⟩
+  · rw [rwWriteHeader_written] at hh; cases hh
+  · unfold rwWriteHeader
+    split
+    · exact h.prog
+    · rename_i hnw
+      have hfr := h.fresh (by simpa using hnw)
+      have h' : ProgInv ({ st with rw := { st.rw with headersWritten := true, statusCode := c } } : St) :=
+        ⟨fun hh => by simp at hh, fun ho => h.prog ho⟩
+      simp only
+      split
+      · rename_i he; intro ho; rw [he] at ho; cases ho
+      · rename_i hne
+        have hopen : st.rw.endWritten = false := by simpa using hne
+        split
+        · exact (reportError_prog w _ _ h').prog
+        · rename_i cl _
+          have h1 := fun t => rwPrepareMeta_same tb ({ st with rw := { st.rw with headersWritten := true, statusCode := c } } : St) c cl t
+          generalize hr : rwPrepareMeta tb _ c cl _ = r
+          have h1' : SameOut ({ st with rw := { st.rw with headersWritten := true, statusCode := c } } : St) r.1 := by
+            rw [← hr]; exact h1 _
+          obtain ⟨s5, rm, eb⟩ := r
+          simp only at h1' ⊢
+          exact rwChooseWriter_prog w s5 rm eb (ProgInv.of_same h1' h') (by rw [h1'.buf]; exact hfr.1)
+            (by rw [h1'.wk]; exact hfr.2) (by rw [h1'.ended]; exact hopen)
+
+
+/-- **`Write` keeps the invariant**: any bytes of the backend, split anywhere, errors included. -/
+theorem rwWrite_prog (w : World) (tb : Tables) (st : St) (data : Bytes) (h : ProgInv st) :
+    ProgInv (rwWrite w tb st data).1 := by
+  unfold rwWrite
+  have h0 : ProgInv (if st.rw.headersWritten = true then (st, false) else rwWriteHeader w tb st 200).1 ∧
+      (if st.rw.headersWritten = true then (st, false) else rwWriteHeader w tb st 200).1.rw.headersWritten = true := by
+    split
+    · exact ⟨h, by assumption⟩
+    · exact ⟨rwWriteHeader_prog w tb st 200 h, rwWriteHeader_written w tb st 200⟩
+  generalize (if st.rw.headersWritten = true then (st, false) else rwWriteHeader w tb st 200) = r0 at h0 ⊢
+  obtain ⟨hP, hW⟩ := h0
+  simp only
+  split
+  · exact hP
+  · split
+    · exact hP
+    · split
+      · rename_i e hw
+        have hf := ewWrite_hw w tb r0.1 e data
+        refine ⟨fun hh => ?_, fun ho => ?_⟩
+        · have : (ewWrite w tb r0.1 e data).1.rw.headersWritten = false := hh
+          rw [hf.hw, hW] at this; cases this
+        · have ho' : (ewWrite w tb r0.1 e data).1.rw.endWritten = false := ho
+          have hopen : r0.1.rw.endWritten = false := by
+            cases hb : r0.1.rw.endWritten with
+            | false => rfl
+            | true => rw [hf.ended hb] at ho'; cases ho'
+          have P0 := hP.prog hopen
+          unfold Prog at P0; rw [hw] at P0
+          have P0' : EwOk r0.1 e := P0
+          show EwOk _ (ewWrite w tb r0.1 e data).2.1
+          refine ⟨ewWrite_flushed_at_boundaries w tb r0.1 e data P0'.1 P0'.2, fun hi => ?_⟩
+          rw [ewWrite_initialized] at hi; cases hi
+      · rename_i t hw
+        have hf := twWrite_hw w tb r0.1 t data
+        refine ⟨fun hh => ?_, fun ho => ?_⟩
+        · have : (twWrite w tb r0.1 t data).1.rw.headersWritten = false := hh
+          rw [hf.hw, hW] at this; cases this
+        · have ho' : (twWrite w tb r0.1 t data).1.rw.endWritten = false := ho
+          have hopen : r0.1.rw.endWritten = false := by
+            cases hb : r0.1.rw.endWritten with
+            | false => rfl
+            | true => rw [hf.ended hb] at ho'; cases ho'
+          have P0 := hP.prog hopen
+          unfold Prog at P0; rw [hw] at P0
+          have P0' : AllFlushed r0.1 := P0
+          show AllFlushed (twWrite w tb r0.1 t data).1
+          exact twWrite_keeps w tb r0.1 t data P0'
+      · rename_i body kind hw
+        split
+        · exact hP
+        · split
+          · exact reportError_prog w r0.1 _ hP
+          · refine ⟨fun hh => ?_, fun ho => ?_⟩
+            · have : r0.1.rw.headersWritten = false := hh
+              rw [hW] at this; cases this
+            · have P0 := hP.prog ho
+              unfold Prog at P0; rw [hw] at P0
+              have P0' : AllFlushed r0.1 := P0
+              exact P0'
+      · exact hP
+      · exact hP
+
+
+theorem foldl_prog {β : Type} (g : Flight × β → BOp → Flight × β) (hg : ∀ acc op, ProgInv acc.1.st → ProgInv (g acc op).1.st) :
+    ∀ (l : List BOp) (acc : Flight × β), ProgInv acc.1.st → ProgInv (l.foldl g acc).1.st := by
+  intro l
+  induction l with
+  | nil => intro acc h; exact h
+  | cons x xs ih => intro acc h; simp only [List.foldl_cons]; exact ih _ (hg acc x h)
+
+/-- **Every handler script keeps the invariant**: after any sequence of reads (any sizes), header
+    changes, `WriteHeader`, `Write` (any bytes, split anywhere), `Flush` and `Close` calls. -/
+theorem runScript_prog (w : World) (tb : Tables) (pl : HandlePlan) (script : List BOp) (total0 : Nat) (f : Flight)
+    (h : ProgInv f.st) : ProgInv (runScript w tb pl script total0 f).1.st := by
+  unfold runScript
+  refine foldl_prog (β := BackendObs) _ ?_ script (f, ({} : BackendObs)) h
+  intro acc op hacc
+  obtain ⟨f1, b1⟩ := acc
+  simp only at hacc ⊢
+  split
+  · exact hacc
+  · split
+    · exact reach_prog (flightReadN_reach w pl _ _ true _ f1 0 _ _) hacc
+    · exact reach_prog (flightReadN_reach w pl _ _ false _ f1 0 _ _) hacc
+    · exact reach_prog (flightReadAll_reach w pl _ _ f1 _) hacc
+    · exact ProgInv.of_same (setHdr_same _ _) hacc
+    · exact ProgInv.of_same (setHdr_same _ _) hacc
+    · exact rwWriteHeader_prog w tb f1.st _ hacc
+    · exact rwWrite_prog w tb f1.st _ hacc
+    · exact hacc
+    · exact hacc
+
+/-- The state the backend handler starts with satisfies the invariant. -/
+theorem start_prog (st : St) (skip : Bool) (hrw : st.rw = {}) (hs : st.sink.items = [] ∧ st.sink.flushedN = none) :
+    ProgInv (transcodeStartState st skip) := by
+  have base : ProgInv ({ st with rw := { st.rw with active := true } } : St) := by
+    refine ⟨fun _ => ?_, fun _ => ?_⟩
+    · simp [hrw]
+    · unfold Prog
+      simp only [hrw]
+      intro _; simp [hs.1, hs.2]
+  unfold transcodeStartState
+  simp only
+  split
+  · exact ProgInv.of_same (a := ({ st with rw := { st.rw with active := true } } : St)) ⟨rfl, rfl, rfl, rfl, rfl, rfl⟩ base
+  · exact base
+
+/-- **C16, response direction, whole runs.**  Take any backend handler: any sequence of reads of the
+    request, header changes, `WriteHeader`, `Write` calls with any bytes split anywhere, `Flush` and
+    `Close`, stopped at any point.  While the RPC has not ended and the client's protocol streams
+    (the response is not being collected because its end must precede its body):
+    * on the re-encoding path everything written towards the client has been flushed;
+    * on the re-framing path everything has been flushed whenever the writer is between messages,
+      so a message is on the wire when the `Write` that completed it returns. -/
+theorem nothing_complete_is_held_back (w : World) (tb : Tables) (pl : HandlePlan) (script : List BOp) (total0 : Nat)
+    (st : St) (skip : Bool) (rd : Reader) (hrw : st.rw = {}) (hs : st.sink.items = [] ∧ st.sink.flushedN = none) :
+    let st' := (runScript w tb pl script total0 { st := transcodeStartState st skip, rd := rd }).1.st
+    st'.rw.endWritten = false → st'.rw.buf = none →
+      match st'.rw.w with
+      | .enveloping e => e.writingEnvelope = true → st'.sink.flushedN.getD 0 = st'.sink.items.length
+      | _ => st'.sink.flushedN.getD 0 = st'.sink.items.length := by
+  intro st' ho hb
+  have hinv : ProgInv st' := runScript_prog w tb pl script total0 _ (start_prog st skip hrw hs)
+  have hp := hinv.prog ho
+  unfold Prog at hp
+  split
+  · rename_i e hw
+    rw [hw] at hp
+    exact hp.1 hb
+  · rename_i hne
+    cases hw : st'.rw.w with
+    | enveloping e => exact absurd hw (hne e)
+    | unset => rw [hw] at hp; exact hp hb
+    | transforming t => rw [hw] at hp; exact hp hb
+    | errorWriter b k => rw [hw] at hp; exact hp hb
+    | noBody => rw [hw] at hp; exact hp hb
+
+
+/-- What `ServeHTTP` does before the handler runs leaves the response untouched. -/
+theorem transcodePre_fresh (w : World) (o : Op) (pl : HandlePlan) (st0 st : St) (first : Option (Bytes × Bool))
+    (h : transcodePre w o pl st0 = .ok (st, first)) : st.rw = st0.rw ∧ st.sink = st0.sink := by
+  unfold transcodePre at h
+  split at h
+  · have hq := readRequestMessage_quiet w st0
+    simp only at h
+    split at h
+    · cases h
+    · split at h
+      · cases h
+      · simp only [Except.ok.injEq, Prod.mk.injEq] at h
+        rw [← h.1]; exact hq
+  · simp only [Except.ok.injEq, Prod.mk.injEq] at h
+    rw [← h.1]; exact ⟨rfl, rfl⟩
+
+/-- The same for the handler as `ServeHTTP` runs it: the state `serveTranscode` hands to the handler
+    script satisfies the premises. -/
+theorem serve_handler_makes_progress (w : World) (sc : Scenario) (o : Op) (st : St) (first : Option (Bytes × Bool))
+    (hpre : transcodePre w o (o.plan w) { op := o, src := sc.src, sink := {} } = .ok (st, first))
+    (script : List BOp) (skip : Bool) (rd : Reader) :
+    let st' := (runScript w sc.tables (o.plan w) script sc.src.left { st := transcodeStartState st skip, rd := rd }).1.st
+    st'.rw.endWritten = false → st'.rw.buf = none →
+      match st'.rw.w with
+      | .enveloping e => e.writingEnvelope = true → st'.sink.flushedN.getD 0 = st'.sink.items.length
+      | _ => st'.sink.flushedN.getD 0 = st'.sink.items.length := by
+  have hf := transcodePre_fresh w o (o.plan w) _ st first hpre
+  exact nothing_complete_is_held_back w sc.tables (o.plan w) script sc.src.left st skip rd hf.1 (by rw [hf.2]; exact ⟨rfl, rfl⟩)
 
 /-! ### the specification predicates are not vacuous -/
 
